@@ -45,7 +45,11 @@ static void v_sha1_transform_stub(struct sha1_ctx_s *ctx, const uint8_t *blocks,
 static inline void a_real_transform(sha1_ctx_t *ctx, const uint8_t *blocks, size_t nblocks) {
 	sha1_transform(ctx, blocks, blocks + nblocks * SHA1_MSG_BLK_SIZE);
 }
-#define a_scratch(off)	((off) >= offsetof(sha1_ctx_t, W) && (off) < offsetof(sha1_ctx_t, W) + sizeof(((sha1_ctx_t *)0)->W))
+/* everything except the chaining state and the schedule W[] must stay as it was */
+#define a_frame_check(c, b)	do { \
+	V_ASSERT((c)->count == (b)->count, "FRAME transform leaves count alone"); \
+	for (size_t i_ = 0; i_ < SHA1_MSG_BLK_64CNT; i_++) \
+		V_ASSERT((c)->buffer[i_] == (b)->buffer[i_], "FRAME transform leaves the input buffer alone"); } while (0)
 #endif
 
 typedef sha1_ctx_t	a_ctx_t;
